@@ -164,8 +164,9 @@ Print Assumptions C09_ws_lookup.
 (** C09_ws_ordinary ... which, for a step that is not a funnel parent, is the
     workspace of the instance [d'] of that step for the SAME combination
     ([same_combo]: [d'] is the step's only, unparameterised instance, or its row
-    carries the same labels as [d]'s row for the parameters [d'] uses -- the same
-    row in particular).  Holds of the plan in either reading [m]. *)
+    gives the same combination string -- the labels of the parameters [d'] uses,
+    joined by "." -- as [d]'s row; the same row in particular).  Holds of the
+    plan in either reading [m]. *)
 Theorem C09_ws_ordinary : forall (m : mode) (c : case) (ds : list desc) (d d' : desc),
   valid_case c = true -> plan m c = Some ds -> In d ds -> In d' ds ->
   ~ In (s_name (d_step d')) (hub_of (d_step d)) ->
